@@ -44,14 +44,14 @@ impl QueueSrc {
         QueueSrc { vals, pos: 0, dry: false }
     }
     fn pop(&mut self) -> u8 {
-        if self.pos < self.vals.len() {
-            let v = self.vals[self.pos].first().copied().unwrap_or(0);
-            self.pos += 1;
-            v
+        let v = if self.pos < self.vals.len() {
+            self.vals[self.pos].first().copied().unwrap_or(0)
         } else {
             self.dry = true;
             0
-        }
+        };
+        self.pos += 1;
+        v
     }
 }
 
@@ -88,7 +88,7 @@ pub mod native {
 /// Assert `cond`; `label` (a string literal, Kani needs one) has the form `Cxx:<site>:<clause>`.
 #[macro_export]
 macro_rules! check {
-    ($label:literal, $cond:expr) => {{
+    ($label:expr, $cond:expr) => {{
         let __c: bool = $cond;
         #[cfg(kani)]
         kani::assert(__c, $label);
@@ -100,7 +100,7 @@ macro_rules! check {
 /// Vacuity witness: the run is inconclusive unless the solver finds a value reaching this with `cond`.
 #[macro_export]
 macro_rules! cover {
-    ($label:literal, $cond:expr) => {{
+    ($label:expr, $cond:expr) => {{
         let __c: bool = $cond;
         #[cfg(kani)]
         kani::cover(__c, $label);
